@@ -72,29 +72,55 @@ def _winner(nfa: PNFA, threads):
 
 # --------------------------------------------------------------------------- concrete
 
+class Stepper:
+    """Incremental ordered-thread simulation with capture registers as payload.
+
+    ``threads = start()``; ``threads = feed(threads, i, atom)`` consumes the
+    ``i``-th character (0-based); ``result(threads)`` is the register tuple
+    ``(s0, e0, s1, e1, ...)`` (``-1`` = unset) of the winning parse if the input
+    ended here, or ``None``.  Thread lists are immutable from the caller's point
+    of view, so prefixes can be shared when many strings are enumerated."""
+
+    def __init__(self, nfa: PNFA, part: Partition, ngroups: int):
+        self.nfa = nfa
+        self.part = part
+        self.masks = masks_for(nfa, part)
+        self.ngroups = ngroups
+        self._pos = 0
+
+    def _on_tag(self, pl, label):
+        i = 2 * label[1] + (1 if label[0] == "c" else 0)
+        return pl[:i] + (self._pos,) + pl[i + 1:]
+
+    def start(self):
+        self._pos = 0
+        init = (-1,) * (2 * (self.ngroups + 1))
+        return closure(self.nfa, [(self.nfa.start, 0, init)], True, self._on_tag)
+
+    def feed(self, threads, i: int, a: int):
+        seeds = _step_seeds(self.nfa, self.masks, threads, a, a == self.part.nl)
+        STATS["configurations"] += 1
+        if not seeds:
+            return []
+        self._pos = i + 1
+        return closure(self.nfa, seeds, False, self._on_tag)
+
+    def result(self, threads) -> Optional[Tuple[int, ...]]:
+        win = _winner(self.nfa, threads)
+        return None if win is None else win[2]
+
+
 def simulate_atoms(nfa: PNFA, part: Partition, atoms: Sequence[int], ngroups: int
                    ) -> Optional[Tuple[int, ...]]:
     """Capture registers ``(s0, e0, s1, e1, ...)`` (``-1`` = unset) of the winning
     parse of the atom string, or ``None`` if there is no match."""
-    masks = masks_for(nfa, part)
-    pos = [0]
-
-    def on_tag(pl, label):
-        i = 2 * label[1] + (1 if label[0] == "c" else 0)
-        return pl[:i] + (pos[0],) + pl[i + 1:]
-
-    init = (-1,) * (2 * (ngroups + 1))
-    threads = closure(nfa, [(nfa.start, 0, init)], True, on_tag)
-    nl = part.nl
-    for a in atoms:
-        seeds = _step_seeds(nfa, masks, threads, a, a == nl)
-        pos[0] += 1
-        threads = closure(nfa, seeds, False, on_tag) if seeds else []
-        STATS["configurations"] += 1
+    st = Stepper(nfa, part, ngroups)
+    threads = st.start()
+    for i, a in enumerate(atoms):
+        threads = st.feed(threads, i, a)
         if not threads:
             return None
-    win = _winner(nfa, threads)
-    return None if win is None else win[2]
+    return st.result(threads)
 
 
 # --------------------------------------------------------------------------- spec side
